@@ -277,10 +277,45 @@ def run_cases(impl, cfg, cases, out, stats):
             w.teardown()
 
 
+OVERDUE_REQUESTS = [('GET', 'EIO=4&transport=websocket&sid=$', {}), ('GET', 'EIO=4&transport=bogus&sid=$', {}),
+                    ('PUT', 'EIO=4&transport=polling&sid=$', {}), ('GET', 'EIO=3&transport=polling&sid=$x', {}),
+                    ('GET', 'EIO=4&transport=polling&sid=$&j=x', {})]
+
+
+def run_overdue(impl, out, stats):
+    """A session whose PING has been unanswered for longer than ping_timeout but which nobody has looked at yet (no send, no
+    sweep: monitoring is off): a refused request naming it still has no effect, and its late PONG is still taken."""
+    for method, query, hdrs in OVERDUE_REQUESTS:
+        w = peer.make_world(impl, server_kwargs=dict(ping_interval=1, ping_timeout=1, monitor_clients=False))
+        stats['worlds'] += 1
+        try:
+            sid = peer.sid_of(peer.open_polling(w))
+            w.run_until(2.25)
+            before = snapshot(w)
+            r = w.http(method, query.replace('$', sid), headers=hdrs)
+            w.run()
+            stats['requests'] += 1
+            case = ['overdue', method, query]
+            if r.exc or not r.done or r.status not in (400, 405):
+                out.append(report.Violation({'impl': impl, 'kind': 'wrong_status', 'trigger': 'sid=overdue'},
+                                            '[%s overdue session] %s %s -> exc=%r status=%r, reference refuses' % (impl, method, query, r.exc, r.status),
+                                            {'impl': impl, 'cfg': 'overdue', 'case': case}, weight=(0, 0)))
+            if snapshot(w) != before:
+                out.append(report.Violation({'impl': impl, 'kind': 'refused_request_had_effect', 'trigger': 'sid=overdue'},
+                                            '[%s overdue session] %s %s (refused) changed the state of live sessions / the event log: %r'
+                                            % (impl, method, query, [e[:3] for e in w.events]),
+                                            {'impl': impl, 'cfg': 'overdue', 'case': case}, weight=(0, 0)))
+        finally:
+            w.teardown()
+
+
 def _work(chunk):
     out = []
     stats = {'worlds': 0, 'requests': 0, 'skipped': 0}
     for impl, cfg, cases in chunk:
+        if cfg == 'overdue':
+            run_overdue(impl, out, stats)
+            continue
         try:
             run_cases(impl, cfg, cases, out, stats)
         except report.Livelock as e:
@@ -306,6 +341,7 @@ def run(ctx):
             for part in parallel.split(cs, 3 if cfg in STR_CFGS else 12):
                 part = sorted(part, key=lambda c: reference(*c, cfg)[0] != 'refuse')
                 jobs.append((impl, cfg, part))
+    jobs += [(impl, 'overdue', None) for impl in ('sync', 'async')]
     res = parallel.pmap_chunks(_work, [[j] for j in jobs], ctx.workers, ctx.seed, maxtasks=4)
     tot = {}
     nv = 0
@@ -341,8 +377,11 @@ def replay(ctx, payload):
     r = payload['replay']
     out = []
     st = {'worlds': 0, 'requests': 0, 'skipped': 0}
-    run_cases(r['impl'], r['cfg'], [tuple(r['case'])], out, st)
-    print('reference:', reference(*r['case'], r['cfg']))
+    if r['cfg'] == 'overdue':
+        run_overdue(r['impl'], out, st)
+    else:
+        run_cases(r['impl'], r['cfg'], [tuple(r['case'])], out, st)
+        print('reference:', reference(*r['case'], r['cfg']))
     for v in out:
         print('REPLAY VIOLATION:', v.text)
     print('replayed; violations=%d' % len(out))
